@@ -1123,10 +1123,18 @@ def validate(ctx: Ctx, budget_s: float):
                         {"a": dump_op(a)[:200], "b": dump_op(b)[:200]})
             continue
 
+        clean_inputs = not any(gauss(v) == (0, 0) for v in list(a.values()) + list(b.values()))
+
         def chk(key, what, got_op, want):
             got = real_dense(got_op, nq)
             if got != want:
                 ctx.witness(key, what, desc, {"result": dump_op(got_op)[:300]})
+            # "terms whose coefficients cancel exactly disappear": no result of an operation on zero-free operands
+            # stores an exact zero coefficient
+            # (sums of contributions only: a scalar multiple by 0 is not a cancellation and keeps explicit zero terms)
+            if clean_inputs and key.split("-")[0] in ("mul", "add", "sub", "commutator", "iadd", "isub") and any(
+                    gauss(v) == (0, 0) for v in got_op.values()):
+                ctx.witness("zero-stored", f"{key.split('-')[0]}: the result stores an exact zero coefficient", desc, {"result": dump_op(got_op)[:300]})
 
         try:
             chk("mul-homomorphism", "matrix of a*b differs from matrix(a) @ matrix(b)", a * b, ref.mat_mul(A, B))
